@@ -181,7 +181,7 @@ def _is_assign_to(st, name):
     return isinstance(st, ast.Assign) and len(st.targets) == 1 and ast.unparse(st.targets[0]) == name
 
 
-def translate(repo_graph_py_source, base_edge_source=None):
+def translate(repo_graph_py_source, base_edge_source=None, edge_sources=None):
     """-> (lean text, [manifest entries]); raises Untranslatable"""
     global REL
     tree = ast.parse(repo_graph_py_source)
@@ -206,6 +206,15 @@ def translate(repo_graph_py_source, base_edge_source=None):
                    once=("dx", "v.pose", "self._fixed_gradient_indices"))
     env = {"chi2_prev": "chi2_prev", "self._chi2": "chi2", "np.finfo(float).eps": "eps", "tol": "tol", "rel_diff": "rel_diff"}
     sc = Sc(env)
+    # `verbose` only guards printing: every `if` that mentions it contains nothing but print(...) calls, and it is used nowhere else
+    for n in ast.walk(opt):
+        if isinstance(n, ast.If) and any(isinstance(x, ast.Name) and x.id == "verbose" for x in ast.walk(n.test)):
+            if ast.unparse(n.test) != "verbose" or n.orelse or not all(isinstance(b, ast.Expr) and isinstance(b.value, ast.Call) and ast.unparse(b.value.func) == "print" for b in n.body):
+                raise Untranslatable(REL, n.lineno, "an `if verbose` block of optimize does more than print")
+    uses = [x for x in ast.walk(opt) if isinstance(x, ast.Name) and x.id == "verbose"]
+    guards = [x for x in ast.walk(opt) if isinstance(x, ast.If) and ast.unparse(x.test) == "verbose"]
+    if len(uses) != len(guards):
+        raise Untranslatable(REL, opt.lineno, "`verbose` is used outside plain `if verbose:` guards")
     init = _find(opt.body, lambda s: _is_assign_to(s, "chi2_prev"), "chi2_prev initialisation", opt.lineno)
     emit("optimize_chi2_prev_init", "{E : Type} [ScalarF E]", "E", sc.ev(init.value), init)
     loop = _find(opt.body, lambda s: isinstance(s, ast.For) and ast.unparse(s.target) == "i", "the iteration loop of optimize", opt.lineno)
@@ -408,6 +417,16 @@ def translate(repo_graph_py_source, base_edge_source=None):
             REL = rel_saved
         for d in defs[defs_before:]:
             d["file"] = "graphslam/edge/base_edge.py"
+
+    # ------------------------------------------------------------------ built-in edge classes use the base-class linearisation
+    for rel_e, src_e in (edge_sources or {}).items():
+        te = ast.parse(src_e)
+        for cdef in [n for n in te.body if isinstance(n, ast.ClassDef)]:
+            if not any(ast.unparse(b) == "BaseEdge" for b in cdef.bases):
+                continue
+            for fn in [n for n in cdef.body if isinstance(n, ast.FunctionDef)]:
+                if fn.name in ("calc_chi2", "calc_chi2_gradient_hessian", "_calc_jacobian", "_is_valid"):
+                    raise Untranslatable(rel_e, fn.lineno, "%s overrides BaseEdge.%s: the assembly model mirrors the base-class method only" % (cdef.name, fn.name))
 
     # ------------------------------------------------------------------ render
     txt = "import GraphSlam.Core.Scalar\n\n/-! GENERATED by tools/translate/py2lean_graph.py from /repo/graphslam/graph.py — do not edit.\n\n"
